@@ -351,11 +351,11 @@ def cvc5_crosscheck(results, limit=48, serial=False):
         return {"queries": 0}, []
     step = max(1, len(qs) // limit)
     qs = qs[::step][:limit]
-    out = harness.pmap(_cvc5_one, qs, serial)
+    out = harness.pmap(_cvc5_one, qs, False, item_timeout=30)  # cvc5's own tlimit is not honoured inside libpoly: hard kill
     stats = {"queries": len(qs), "unsat": 0, "unknown_or_timeout": 0, "sat_DISAGREEMENT": 0, "error": 0, "seconds": round(sum(o.get("s", 0) for o in out), 1)}
     problems = []
     for o in out:
-        r = o.get("res", "error")
+        r = o.get("res", "unknown" if "exceeded" in str(o.get("error", "")) else "error")
         if r == "unsat":
             stats["unsat"] += 1
         elif r == "sat":
